@@ -1,4 +1,4 @@
-CONSTANT Cfg <- Cfg_heavy
+CONSTANT CfgSet <- S_heavy
 INIT MCInit
 NEXT Next
 CHECK_DEADLOCK FALSE
